@@ -46,7 +46,7 @@ ASSUMPTIONS = [
 
 WEIGHTS = {'create': 20, 'add': 22, 'readd': 6, 'remove': 14, 'delete': 8,
            'delete_now': 6, 'process': 10, 'clear': 3, 'toggle': 9,
-           'enable_same': 2, 'probe': 8}
+           'enable_same': 2, 'probe': 8, 'bounce': 5}
 
 
 def gen_one(rng, tier, index):
@@ -64,9 +64,80 @@ def gen_one(rng, tier, index):
 
 
 def gen_cases(tier, seed):
+    for later in ('add', 'create', 'remove'):
+        for first in ('add', 'create'):
+            yield {'scenario': 'release-interrupted', 'first': first,
+                   'later': later}
     n = 1500 if tier == 'quick' else 16 * 5000
     for i in range(n):
         yield gen_one(random.Random(f'C02/{seed}/{tier}/{i}'), tier, i)
+
+
+def run_scenario(case):
+    """Postponed callbacks are delivered in operation order even when the
+    release is interrupted: a postponed on_add disables dispatching again and
+    performs a further lifecycle operation (postponed in turn) while older
+    callbacks are still pending."""
+    from vf import import_desper
+    desper = import_desper()
+    res = Res()
+    log = []
+    w = desper.World()
+
+    def make(name, act=None):
+        def on_add(self, entity, world):
+            log.append(('add', name))
+            if act is not None:
+                act(entity)
+
+        def on_remove(self, entity, world):
+            log.append(('remove', name))
+        return desper.event_handler('on_add', 'on_remove')(
+            type(name, (), {'on_add': on_add, 'on_remove': on_remove}))()
+
+    victim = make('victim')
+    e0 = w.create_entity(victim)
+    log.clear()
+
+    def interrupt(entity):
+        w.dispatch_enabled = False
+        if case['later'] == 'add':
+            w.add_component(entity, make('late'))
+        elif case['later'] == 'create':
+            w.create_entity(make('late'))
+        else:
+            w.remove_component(e0, type(victim))
+
+    w.dispatch_enabled = False
+    first = make('first', interrupt)
+    if case['first'] == 'add':
+        w.add_component(e0, first)
+    else:
+        w.create_entity(first)
+    w.create_entity(make('second'))
+    w.create_entity(make('third'))
+    try:
+        w.dispatch_enabled = True       # interrupted after 'first'
+        mid = list(log)
+        w.dispatch_enabled = True       # the remainder, then the late one
+    except Exception as ex:
+        res.div(0, 'operation-raised', f'{type(ex).__name__}: {ex}',
+                'no exception', repr(ex))
+        return res
+    late = ('remove', 'victim') if case['later'] == 'remove' \
+        else ('add', 'late')
+    want = [('add', 'first'), ('add', 'second'), ('add', 'third'), late]
+    res.stats['lifecycle_callbacks_checked'] += len(log)
+    res.stats['is_handler_checks'] += 1
+    if mid != want[:1] or log != want:
+        res.div(0, 'postponed-release', 'postponed callbacks must be '
+                'delivered once each in operation order, also when the '
+                'release is interrupted by a callback that disables '
+                'dispatching and performs another operation',
+                expected=want, observed=log, after_first_enable=mid)
+    res.nontrivial = True
+    res.sample = {'scenario': case, 'log': log}
+    return res
 
 
 class C02Driver(wl.Driver):
@@ -242,6 +313,8 @@ def _key(e):
 
 
 def run_case(case):
+    if case.get('scenario'):
+        return run_scenario(case)
     res = Res()
     driver = C02Driver(case, res)
     driver.run()
